@@ -678,6 +678,13 @@ func c20CLI(rc *RunCtx, n int) {
 	rc.Cov.Extra["cli_calibration_green"] = true
 	fixed := []string{"", "0", "1", "x", "0x", "0X", "0x0", "0xz", "0xzz", "zz", "O0Il", " ", "0x ", "ſ", "é", "\x00", "0", "-", "--", "-x", "0x" + strings.Repeat("ab", 33),
 		strings.Repeat("1", 100), strings.Repeat("z", 44), "0x" + strings.Repeat("f", 64), "0x" + strings.Repeat("f", 63), "11", "2"}
+	for off := 0; off <= 32; off++ {
+		for _, ch := range []string{"é", "ÿ", "ſ", "€", "\xff", "\xc3", "\x80", "𝟘", "0", "I"} {
+			for _, suffix := range []string{"", "abc"} {
+				fixed = append(fixed, strings.Repeat("123456789ABCDEFGHJKLMNPQRSTUVWXYZ", 2)[:off]+ch+suffix)
+			}
+		}
+	}
 	for i := 0; i < n; i++ {
 		site := cliSites[i%len(cliSites)]
 		var a string
@@ -730,7 +737,7 @@ func init() {
 			c20Tx(rc, rc.Pick(12, 48), rc.Pick(6000, 15000))
 			c20Decoders(rc, rc.Pick(3000, 100000))
 			if rc.Shard == 0 {
-				c20CLI(rc, rc.Pick(1500, 20000))
+				c20CLI(rc, rc.Pick(9000, 40000))
 			}
 		},
 		Floors: func(c *Cov, tier string) []string {
